@@ -87,10 +87,47 @@ const (
 	c24OpTT2           // TruncateTail(group, tail+2)
 	c24OpTTOver        // TruncateTail(group, head+1): reset beyond the head (only when every table is in the group)
 	c24OpReopen        // clean Close + NewFreezer
+	c24OpApp8          // append eight 4-byte items in one batch (used to build the pre-populated start states)
 	c24NumOps
+
+	c24THAbsBase = 100 // c24THAbsBase+n: TruncateHead(n)
+	c24TTAbsBase = 200 // c24TTAbsBase+n: TruncateTail(group, n)
+	c24AllTH     = -1  // alphabet placeholder: TruncateHead(n) for every tail <= n < head
+	c24AllTT     = -2  // alphabet placeholder: TruncateTail(group, n) for every tail < n <= head
 )
 
-var c24OpNames = [...]string{"app1", "app2", "sync", "th1", "th2", "tt1", "tt2", "ttover", "reopen"}
+var c24OpNames = [...]string{"app1", "app2", "sync", "th1", "th2", "tt1", "tt2", "ttover", "reopen", "app8"}
+
+func c24OpName(op int) string {
+	switch {
+	case op == c24AllTH:
+		return "th@every-item"
+	case op == c24AllTT:
+		return "tt@every-item"
+	case op >= c24TTAbsBase:
+		return fmt.Sprintf("tt@%d", op-c24TTAbsBase)
+	case op >= c24THAbsBase:
+		return fmt.Sprintf("th@%d", op-c24THAbsBase)
+	}
+	return c24OpNames[op]
+}
+
+// c24Start is a pre-populated start state: a prefix of operations executed (with the real
+// API, to completion) before the enumerated sequence.
+type c24Start struct {
+	name   string
+	prefix []int
+}
+
+var (
+	c24StartEmpty = c24Start{name: ""}
+	// per table >= 3 data files with 2-3 items each (the tables differ in item size, so
+	// their file boundaries differ: a holds 2 items per file, b 3), everything synced
+	c24StartMulti = c24Start{name: "8items-multifile-synced", prefix: []int{c24OpApp8, c24OpSync}}
+	// the same with an already truncated tail that is unaligned in table a (item 2 stays
+	// hidden inside the new tail file) and aligned in table b, synced again
+	c24StartTail = c24Start{name: "8items-multifile-tail3-synced", prefix: []int{c24OpApp8, c24OpSync, c24TTAbsBase + 3, c24OpSync}}
+)
 
 type c24Val struct {
 	gen  int
@@ -128,6 +165,14 @@ func (m *c24Model) enabled(op int, cfg c24Config) bool {
 		return m.tail+2 <= m.head
 	case c24OpTTOver:
 		return cfg.allGrouped()
+	}
+	if op >= c24TTAbsBase {
+		n := uint64(op - c24TTAbsBase)
+		return m.tail < n && n <= m.head
+	}
+	if op >= c24THAbsBase {
+		n := uint64(op - c24THAbsBase)
+		return m.tail <= n && n < m.head
 	}
 	return true
 }
@@ -203,7 +248,15 @@ func (s *c24Sys) appendItems(sizes []int) error {
 // the state after the completed operation).
 func (s *c24Sys) apply(op int) error {
 	m := s.m
+	switch {
+	case op >= c24TTAbsBase:
+		return s.truncTail(uint64(op-c24TTAbsBase), op)
+	case op >= c24THAbsBase:
+		return s.truncHead(uint64(op-c24THAbsBase), op)
+	}
 	switch op {
+	case c24OpApp8:
+		return s.appendItems([]int{4, 4, 4, 4, 4, 4, 4, 4})
 	case c24OpApp1:
 		return s.appendItems([]int{2})
 	case c24OpApp2:
@@ -221,17 +274,7 @@ func (s *c24Sys) apply(op int) error {
 		if op == c24OpTH2 {
 			n = m.head - 2
 		}
-		old, err := s.f.TruncateHead(n)
-		if err != nil {
-			return err
-		}
-		if old != m.head {
-			return fmt.Errorf("TruncateHead returned previous head %d, model %d", old, m.head)
-		}
-		m.head = n
-		if m.hi > n {
-			m.hi = n
-		}
+		return s.truncHead(n, op)
 	case c24OpTT1, c24OpTT2, c24OpTTOver:
 		n := m.tail + 1
 		if op == c24OpTT2 {
@@ -240,23 +283,7 @@ func (s *c24Sys) apply(op int) error {
 		if op == c24OpTTOver {
 			n = m.head + 1
 		}
-		old, err := s.f.TruncateTail(c24Group, n)
-		if err != nil {
-			return err
-		}
-		if old != m.tail {
-			return fmt.Errorf("TruncateTail returned previous tail %d, model %d", old, m.tail)
-		}
-		m.tail = n
-		if m.head < n {
-			m.head = n
-		}
-		if m.loG < n {
-			m.loG = n
-		}
-		if s.cfg.allGrouped() && m.lo0 < n {
-			m.lo0 = n
-		}
+		return s.truncTail(n, op)
 	case c24OpReopen:
 		if err := s.f.Close(); err != nil {
 			return err
@@ -273,13 +300,56 @@ func (s *c24Sys) apply(op int) error {
 			m.lo0 = m.tail
 		}
 	}
+	return s.checkCounters(op)
+}
+
+func (s *c24Sys) checkCounters(op int) error {
+	m := s.m
 	if h, _ := s.f.Ancients(); h != m.head {
-		return fmt.Errorf("after %s: Ancients()=%d, model head %d", c24OpNames[op], h, m.head)
+		return fmt.Errorf("after %s: Ancients()=%d, model head %d", c24OpName(op), h, m.head)
 	}
 	if t, _ := s.f.Tail(c24Group); t != m.tail {
-		return fmt.Errorf("after %s: Tail()=%d, model tail %d", c24OpNames[op], t, m.tail)
+		return fmt.Errorf("after %s: Tail()=%d, model tail %d", c24OpName(op), t, m.tail)
 	}
 	return nil
+}
+
+func (s *c24Sys) truncHead(n uint64, op int) error {
+	m := s.m
+	old, err := s.f.TruncateHead(n)
+	if err != nil {
+		return err
+	}
+	if old != m.head {
+		return fmt.Errorf("TruncateHead returned previous head %d, model %d", old, m.head)
+	}
+	m.head = n
+	if m.hi > n {
+		m.hi = n
+	}
+	return s.checkCounters(op)
+}
+
+func (s *c24Sys) truncTail(n uint64, op int) error {
+	m := s.m
+	old, err := s.f.TruncateTail(c24Group, n)
+	if err != nil {
+		return err
+	}
+	if old != m.tail {
+		return fmt.Errorf("TruncateTail returned previous tail %d, model %d", old, m.tail)
+	}
+	m.tail = n
+	if m.head < n {
+		m.head = n
+	}
+	if m.loG < n {
+		m.loG = n
+	}
+	if s.cfg.allGrouped() && m.lo0 < n {
+		m.lo0 = n
+	}
+	return s.checkCounters(op)
 }
 
 // ---- crash context and oracle ----------------------------------------------
@@ -547,19 +617,28 @@ func c24Sig(evs []vos.Event) string {
 
 // c24Execute runs ops on a fresh system. An empty ops list means: the crash points are
 // those of the initial NewFreezer on an empty directory.
-func c24Execute(cfg c24Config, ops []int, mergeMeta bool) (*c24Run, error) {
+func c24Execute(cfg c24Config, start c24Start, ops []int, mergeMeta bool) (*c24Run, error) {
 	s, err := c24NewSys(cfg, mergeMeta)
 	if err != nil {
 		return nil, err
 	}
+	for i, op := range start.prefix {
+		if err := s.apply(op); err != nil {
+			s.close()
+			return nil, fmt.Errorf("start state %s: op %d (%s) failed: %v", start.name, i, c24OpName(op), err)
+		}
+	}
 	run := &c24Run{sys: s, before: s.m.clone()}
+	if len(ops) > 0 {
+		run.from = s.fs.NumEvents()
+	}
 	run.to = s.fs.NumEvents()
 	for i, op := range ops {
 		run.before = s.m.clone()
 		run.from = s.fs.NumEvents()
 		if err := s.apply(op); err != nil {
 			s.close()
-			return nil, fmt.Errorf("op %d (%s) failed without any crash: %v", i, c24OpNames[op], err)
+			return nil, fmt.Errorf("op %d (%s) failed without any crash: %v", i, c24OpName(op), err)
 		}
 		run.to = s.fs.NumEvents()
 	}
@@ -569,10 +648,10 @@ func c24Execute(cfg c24Config, ops []int, mergeMeta bool) (*c24Run, error) {
 
 // c24Variants executes the sequence repeatedly until the different table orders of
 // the last operation (the freezer iterates over a Go map of tables) have been seen.
-func c24Variants(cfg c24Config, ops []int, tries int, mergeMeta bool) ([]*c24Run, error) {
+func c24Variants(cfg c24Config, start c24Start, ops []int, tries int, mergeMeta bool) ([]*c24Run, error) {
 	seen := map[string]*c24Run{}
 	for i := 0; i < tries; i++ {
-		run, err := c24Execute(cfg, ops, mergeMeta)
+		run, err := c24Execute(cfg, start, ops, mergeMeta)
 		if err != nil {
 			for _, r := range seen {
 				r.sys.close()
@@ -609,6 +688,7 @@ func c24Variants(cfg c24Config, ops []int, tries int, mergeMeta bool) ([]*c24Run
 
 type c24Case struct {
 	Cfg    string      `json:"cfg"`
+	Start  string      `json:"start_state,omitempty"`
 	Ops    []string    `json:"ops"`
 	Order  string      `json:"table_order"`
 	K      int         `json:"crash_after_event"`
@@ -795,16 +875,16 @@ type c24Params struct {
 func c24OpList(ops []int) []string {
 	out := make([]string, len(ops))
 	for i, o := range ops {
-		out[i] = c24OpNames[o]
+		out[i] = c24OpName(o)
 	}
 	return out
 }
 
 // c24ExploreSeq enumerates all crash images of the last operation of ops.
-func c24ExploreSeq(r *mc.R, cfg c24Config, ops []int, p c24Params, seen *sync.Map, fd *c24Findings) {
-	runs, err := c24Variants(cfg, ops, p.tries, p.mergeMeta)
+func c24ExploreSeq(r *mc.R, cfg c24Config, start c24Start, ops []int, p c24Params, seen *sync.Map, fd *c24Findings) {
+	runs, err := c24Variants(cfg, start, ops, p.tries, p.mergeMeta)
 	if err != nil {
-		fd.add(c24Case{Cfg: cfg.name, Ops: c24OpList(ops), Order: "no-crash"}, fmt.Errorf("without any crash: %v", err), "")
+		fd.add(c24Case{Cfg: cfg.name, Start: start.name, Ops: c24OpList(ops), Order: "no-crash"}, fmt.Errorf("without any crash: %v", err), "")
 		return
 	}
 	defer func() {
@@ -837,7 +917,7 @@ func c24ExploreSeq(r *mc.R, cfg c24Config, ops []int, p c24Params, seen *sync.Ma
 					r.Outcome("duplicate_image_skipped")
 					continue
 				}
-				c := c24Case{Cfg: cfg.name, Ops: c24OpList(ops), Order: run.sig, K: k, Event: evs[k-1].String(), Loss: pt}
+				c := c24Case{Cfg: cfg.name, Start: start.name, Ops: c24OpList(ops), Order: run.sig, K: k, Event: evs[k-1].String(), Loss: pt}
 				var outcome string
 				c24Eval(r, fd, c, img, cfg, func() error {
 					o, err := c24Recover(img, cfg, ctx, p.cont, p.post)
@@ -963,16 +1043,40 @@ func c24Nest(r *mc.R, cfg c24Config, cp *vos.CrashPoint, pt vos.Pattern, outer c
 	}
 }
 
-// c24Sequences lists every enabled operation sequence of length <= depth over alphabet.
-func c24Sequences(cfg c24Config, alphabet []int, depth int) [][]int {
+// c24Sequences lists every enabled operation sequence of length <= depth from the start
+// state; the first operation is drawn from first, the later ones from rest. The
+// placeholders c24AllTH / c24AllTT expand to a truncation at every item index.
+func c24Sequences(cfg c24Config, start c24Start, first, rest []int, depth int) [][]int {
 	var out [][]int
+	expand := func(m *c24Model, alphabet []int) []int {
+		var ops []int
+		for _, op := range alphabet {
+			switch op {
+			case c24AllTH:
+				for n := m.tail; n < m.head; n++ {
+					ops = append(ops, c24THAbsBase+int(n))
+				}
+			case c24AllTT:
+				for n := m.tail + 1; n <= m.head; n++ {
+					ops = append(ops, c24TTAbsBase+int(n))
+				}
+			default:
+				ops = append(ops, op)
+			}
+		}
+		return ops
+	}
 	var rec func(m *c24Model, seq []int)
 	rec = func(m *c24Model, seq []int) {
 		out = append(out, append([]int{}, seq...))
 		if len(seq) == depth {
 			return
 		}
-		for _, op := range alphabet {
+		alphabet := rest
+		if len(seq) == 0 {
+			alphabet = first
+		}
+		for _, op := range expand(m, alphabet) {
 			if !m.enabled(op, cfg) {
 				continue
 			}
@@ -981,18 +1085,35 @@ func c24Sequences(cfg c24Config, alphabet []int, depth int) [][]int {
 			rec(m2, append(seq, op))
 		}
 	}
-	rec(&c24Model{latest: map[uint64]c24Val{}}, nil)
+	m0 := &c24Model{latest: map[uint64]c24Val{}}
+	for _, op := range start.prefix {
+		c24ModelApply(m0, op)
+	}
+	rec(m0, nil)
 	sort.SliceStable(out, func(i, j int) bool { return len(out[i]) < len(out[j]) })
 	return out
 }
 
 // c24ModelApply advances only the counters needed for enabledness.
 func c24ModelApply(m *c24Model, op int) {
+	switch {
+	case op >= c24TTAbsBase:
+		m.tail = uint64(op - c24TTAbsBase)
+		if m.head < m.tail {
+			m.head = m.tail
+		}
+		return
+	case op >= c24THAbsBase:
+		m.head = uint64(op - c24THAbsBase)
+		return
+	}
 	switch op {
 	case c24OpApp1:
 		m.head++
 	case c24OpApp2:
 		m.head += 2
+	case c24OpApp8:
+		m.head += 8
 	case c24OpTH1:
 		m.head--
 	case c24OpTH2:
@@ -1027,38 +1148,53 @@ func c24ReplayTarget() *c24Case {
 	return f.Replay
 }
 
-func c24RunSpace(r *mc.R, cfg c24Config, alphabet []int, minLen, depth int, p c24Params, seen *sync.Map, fd *c24Findings) {
-	all := c24Sequences(cfg, alphabet, depth)
+// c24Space is one enumerated family of histories.
+type c24Space struct {
+	cfg    c24Config
+	start  c24Start
+	first  []int // alphabet of the first operation
+	rest   []int // alphabet of the later operations
+	minLen int
+	depth  int
+}
+
+func c24RunSpace(r *mc.R, sp c24Space, p c24Params, seen *sync.Map, fd *c24Findings) {
+	cfg := sp.cfg
+	all := c24Sequences(cfg, sp.start, sp.first, sp.rest, sp.depth)
 	var seqs [][]int
 	for _, sq := range all {
-		if len(sq) >= minLen {
+		if len(sq) >= sp.minLen && (len(sq) > 0 || len(sp.start.prefix) == 0) {
 			seqs = append(seqs, sq)
 		}
 	}
 	if tgt := c24ReplayTarget(); tgt != nil && r.Replaying() {
 		var keep [][]int
 		for _, sq := range seqs {
-			if cfg.name == tgt.Cfg && fmt.Sprint(c24OpList(sq)) == fmt.Sprint(tgt.Ops) {
+			if cfg.name == tgt.Cfg && sp.start.name == tgt.Start && fmt.Sprint(c24OpList(sq)) == fmt.Sprint(tgt.Ops) {
 				keep = append(keep, sq)
 			}
 		}
 		seqs = keep
 	}
-	stage := fmt.Sprintf("%s.len%d-%d", cfg.name, minLen, depth)
+	sname := sp.start.name
+	if sname == "" {
+		sname = "empty"
+	}
+	stage := fmt.Sprintf("%s/%s.len%d-%d", cfg.name, sname, sp.minLen, sp.depth)
 	r.Bound(stage+".sequences", len(seqs))
 	r.Bound(stage+".torn_grid_full", p.full)
-	names := make([]string, len(alphabet))
-	for i, o := range alphabet {
-		names[i] = c24OpNames[o]
+	r.Bound(stage+".nested", p.nested)
+	r.Bound(stage+".alphabet_first_op", c24OpList(sp.first))
+	if sp.depth > 1 {
+		r.Bound(stage+".alphabet_later_ops", c24OpList(sp.rest))
 	}
-	r.Bound(stage+".alphabet", names)
 	// longest sequences first: better load balance
 	order := make([]int, len(seqs))
 	for i := range order {
 		order[i] = len(seqs) - 1 - i
 	}
 	r.Parallel(len(seqs), func(i int) {
-		c24ExploreSeq(r, cfg, seqs[order[i]], p, seen, fd)
+		c24ExploreSeq(r, cfg, sp.start, seqs[order[i]], p, seen, fd)
 	})
 }
 
@@ -1137,21 +1273,41 @@ func TestVerif_C24(t *testing.T) {
 		if !r.Replaying() {
 			c24TornMetaProbe(r)
 		}
+		// histories from the pre-populated start states: the first operation ranges over the
+		// whole alphabet with head and tail truncation at EVERY item index (file-aligned and
+		// unaligned targets), the second one over a small continuation alphabet
+		ext := []int{c24OpApp1, c24OpApp2, c24OpSync, c24AllTH, c24AllTT, c24OpReopen}
+		cont := []int{c24OpApp1, c24OpApp2, c24OpSync, c24OpTH1, c24OpTT1, c24OpReopen}
+		r.Bound("start_states", []string{"empty", c24StartMulti.name + " (8 four-byte items appended in one batch, SyncAncient: table a 4 data files x 2 items, table b 3 files x 3/3/2 items)",
+			c24StartTail.name + " (the same, then TruncateTail(3) + SyncAncient: item 2 hidden inside the tail file of table a, file-aligned in table b)"})
 		if r.Quick() {
-			r.Bound("loss_patterns", "torn appends cut at every byte R, zero extension to L in {R, end}; full product per crash point when <= 100 images, else all-kept/all-lost baselines with one deviating file")
-			c24RunSpace(r, c24Configs[0], full, 0, 3, p, seen, fd)
-			c24RunSpace(r, c24Configs[1], full, 0, 3, p, seen, fd)
+			r.Bound("loss_patterns", "torn appends cut at every byte R, plus zero-filled extension to the written end when R is the start of an unsynced write; full product per crash point when <= 100 images, else all-kept/all-lost baselines with one deviating file")
+			c24RunSpace(r, c24Space{c24Configs[0], c24StartEmpty, full, full, 0, 3}, p, seen, fd)
+			c24RunSpace(r, c24Space{c24Configs[1], c24StartEmpty, full, full, 0, 3}, p, seen, fd)
+			ps := p
+			ps.nested = false
+			for _, st := range []c24Start{c24StartMulti, c24StartTail} {
+				c24RunSpace(r, c24Space{c24Configs[0], st, ext, cont, 1, 2}, ps, seen, fd)
+				c24RunSpace(r, c24Space{c24Configs[1], st, ext, cont, 1, 2}, ps, seen, fd)
+			}
 			return
 		}
 		// thorough stage 1: histories <= 3 with the complete (R,L) grid and a larger product cap, plus a chain-like 3-table layout
-		r.Bound("loss_patterns", "stage 1 (len<=3): torn appends cut at every byte R, zero extension to every L, full product when <= 3000 images; stage 2 (len 4): as quick")
+		r.Bound("loss_patterns", "stage 1 (empty start, len<=3): torn appends cut at every byte R, zero extension to every L, full product when <= 3000 images; stage 2 (pre-populated starts, len<=2, every truncation target in both positions) and stage 3 (empty start, len 4): as quick")
 		p1 := p
 		p1.full, p1.productCap = true, 3000
-		c24RunSpace(r, c24Configs[0], full, 0, 3, p1, seen, fd)
-		c24RunSpace(r, c24Configs[1], full, 0, 3, p1, seen, fd)
-		c24RunSpace(r, c24Configs[2], []int{c24OpApp1, c24OpApp2, c24OpSync, c24OpTH1, c24OpTT1, c24OpTT2}, 0, 3, p1, seen, fd)
-		// thorough stage 2: histories of length 4 with the quick loss patterns
-		c24RunSpace(r, c24Configs[0], full, 4, 4, p, seen, fd)
-		c24RunSpace(r, c24Configs[1], full, 4, 4, p, seen, fd)
+		c24RunSpace(r, c24Space{c24Configs[0], c24StartEmpty, full, full, 0, 3}, p1, seen, fd)
+		c24RunSpace(r, c24Space{c24Configs[1], c24StartEmpty, full, full, 0, 3}, p1, seen, fd)
+		c3 := []int{c24OpApp1, c24OpApp2, c24OpSync, c24OpTH1, c24OpTT1, c24OpTT2}
+		c24RunSpace(r, c24Space{c24Configs[2], c24StartEmpty, c3, c3, 0, 3}, p1, seen, fd)
+		// thorough stage 2: pre-populated start states, truncation at every index in both positions, nested crashes on
+		for _, st := range []c24Start{c24StartMulti, c24StartTail} {
+			for _, cfg := range c24Configs {
+				c24RunSpace(r, c24Space{cfg, st, ext, ext, 1, 2}, p, seen, fd)
+			}
+		}
+		// thorough stage 3: histories of length 4 from the empty freezer with the quick loss patterns
+		c24RunSpace(r, c24Space{c24Configs[0], c24StartEmpty, full, full, 4, 4}, p, seen, fd)
+		c24RunSpace(r, c24Space{c24Configs[1], c24StartEmpty, full, full, 4, 4}, p, seen, fd)
 	})
 }
